@@ -94,6 +94,10 @@ class C13(Prop):
         for kk in rng.sample(keys, rng.randint(0, len(keys))):
             tgt[kk] = fr(Fraction(rng.randint(-8, 8), 8) if by_weight else Fraction(rng.randint(-20, 20)))
         reb = ["rebal", t + 10, int(by_weight), 1, int(rng.random() < 0.8), rng.choice(["0", "0", "1/50"]), tgt]
+        if any(op[0] == "tradeq" and op[2] not in ("nan", "0") and abs(Fraction(op[2])) < Fraction(1, 10**6) for op in c["ops"]):
+            # a position carrying float dust (a trade of a few 1e-8 contracts) and whole lots: whether the liquidation
+            # is 1 or 2 lots is decided by rounding (1.99999999998 against 2.0) - not this family's subject
+            reb[4] = 1
         c["ops"].append(reb)
         c["ops"].append(["nlv", 0])
         if tgt and rng.random() < 0.25:
@@ -133,6 +137,12 @@ class C13(Prop):
                     r.tags.add("rebalance-refused")
                 if unpriced and st == "ok":
                     r.fail("unpriced-position-rebalanced", op_index=i, unpriced=unpriced, theorem="rebalance_missing_quote_errors")
+                if st == "err rejected" and o.get("record_probe") and o["nrec_after"] == o["nrec_before"]:
+                    pb, pa = o["record_probe"]
+                    if pb != pa:
+                        r.fail("partial-rebalance", op_index=i, record_before=str(pb)[:160], record_after=str(pa)[:160],
+                               theorem="rebalance_fails_before_trading",
+                               clause="a rejected rebalance leaves ... the track record unchanged (length, last entry, what it prints)")
                 if st == "err rejected":
                     changed = {k: (float(o["pos_before"].get(k, 0)), float(o["pos"].get(k, 0)))
                                for k in set(o["pos"]) | set(o["pos_before"])
